@@ -302,6 +302,7 @@ func init() {
 			{Entry: "HarnessC15Filter", Args: []int64{4, 1, 2}, Bound: "4 diagnostics x 1 CLI pattern x 2 path configs", Require: []string{"kept", "dropped"}},
 			{Entry: "HarnessC15Filter", Args: []int64{4, 2, 0}, Bound: "4 diagnostics x 2 CLI patterns, no config", Require: []string{"kept", "dropped"}},
 			{Entry: "HarnessC15Cwd", Bound: "working directory in {root, parent, nested, unrelated} x spelling in {absolute, relative, ./relative}", Require: []string{"linted"}},
+			{Entry: "HarnessC15MultiRepo", Bound: "two repositories with their own `paths` ignore configuration linted in one run, both argument orders: each file filtered by its own repository's configuration", Require: []string{"linted"}},
 			{Entry: "HarnessC15Check", Bound: "LintFile end to end on 3 files (rule diagnostic, text that is not YAML, workflow syntax error) x 3 patterns x given by -ignore or by the paths configuration", Require: []string{"linted", "pattern-matches"}},
 		}
 		p.Thorough = append(append([]HRun{}, p.Quick...),
@@ -496,6 +497,7 @@ func init() {
 			HRun{Entry: "HarnessC20Shellcheck", Bound: "tool error x non-JSON output x 0..3 issues with 64-bit symbolic line/column", Require: []string{"callback", "fatal"}},
 			HRun{Entry: "HarnessC20Pyflakes", Args: []int64{2}, Bound: "2 records with symbolic text, line terminator in {LF, CRLF, none}, optional junk lines", Require: []string{"callback", "unterminated"}},
 			HRun{Entry: "HarnessC20Shell", Bound: "shell at step / job default / workflow default in 7 spellings each x Linux / Windows runner (686 combinations)", Require: []string{"linted"}},
+			HRun{Entry: "HarnessC20TwoJobs", Bound: "two jobs x runner {Linux, Windows} x job default shell {none, bash, pwsh} x both visiting orders: per-job effective shell", Require: []string{"linted"}},
 			HRun{Entry: "HarnessC20Schedule", Args: []int64{2, 1, 1, 0}, Bound: "LintFiles on 2 files x 1 run step, 1 CPU: every interleaving of the 5 goroutines (29 sync events, 13 atomic blocks after Lipton reduction), partial-order encoding: process bound, all collected before return, no deadlock", Require: []string{"linted", "complete-schedule-exists"}},
 			HRun{Entry: "HarnessC20Schedule", Args: []int64{2, 1, 1, 1}, Bound: "the same instance in the step-indexed encoding (cross-encoding diff)", Require: []string{"linted", "complete-schedule-exists"}},
 			HRun{Entry: "HarnessC20Schedule", Args: []int64{2, 2, 1, 0}, Bound: "2 files x 2 steps, 1 CPU: 7 goroutines, 45 events", Require: []string{"linted", "complete-schedule-exists"}},
